@@ -779,4 +779,306 @@ theorem custody_execute_eq (st : State) (a : Addr) (c' i sa p : Bytes) :
           simp only [he, false_and, if_false, Int.add_zero]
           exact this
 
+/-! ### supply: sums of balances over a duplicate-free list of holders -/
+
+theorem sum_congr {f g : Addr → Int} {hs : List Addr} (h : ∀ y ∈ hs, g y = f y) :
+    (hs.map g).sum = (hs.map f).sum := by
+  rw [List.map_congr_left h]
+
+theorem sum_update {f g : Addr → Int} {x : Addr} {hs : List Addr} (hnd : hs.Nodup) (hx : x ∈ hs)
+    (h : ∀ y, y ≠ x → g y = f y) : (hs.map g).sum = (hs.map f).sum + (g x - f x) := by
+  induction hs with
+  | nil => cases hx
+  | cons y ys ih =>
+    obtain ⟨hy, hys⟩ := List.nodup_cons.mp hnd
+    simp only [List.map_cons, List.sum_cons]
+    by_cases e : y = x
+    · subst e
+      have : (ys.map g).sum = (ys.map f).sum :=
+        sum_congr fun z hz => h z (fun e => hy (e ▸ hz))
+      omega
+    · have hx' : x ∈ ys := by
+        cases hx with
+        | head => exact absurd rfl e
+        | tail _ h' => exact h'
+      have := ih hys hx'
+      have := h y e
+      omega
+
+/-- the sum only looks at the token ledger -/
+theorem sumBal_tokens {st st' : State} (h : st'.tokens = st.tokens) (a : Addr) (hs : List Addr) :
+    (hs.map (balOf st' a)).sum = (hs.map (balOf st a)).sum := by
+  apply sum_congr
+  intro y _
+  unfold balOf
+  rw [h]
+
+theorem tokTransfer_sum {st st' : State} {token src dst : Addr} {amount : Int} {au : Bool}
+    (h : tokTransfer st token src dst amount au = .ok st') (a : Addr) {hs : List Addr} (hnd : hs.Nodup)
+    (hsrc : src ∈ hs) (hdst : dst ∈ hs) :
+    (hs.map (balOf st' a)).sum = (hs.map (balOf st a)).sum := by
+  obtain ⟨-, -, t, ht, -, rfl⟩ := tokTransfer_inv h
+  by_cases he : a = token
+  · subst he
+    have h1 := sum_update (f := balOf st a)
+      (g := fun y => if y = src then t.bal src - amount else t.bal y) hnd hsrc
+      (by intro y hy; simp [balOf, ht, hy])
+    have h2 := sum_update (f := fun y => if y = src then t.bal src - amount else t.bal y)
+      (g := balOf (setTok st a { t with bal := fun y => if y = dst then (if dst = src then t.bal src - amount else t.bal dst) + amount
+                                                      else if y = src then t.bal src - amount else t.bal y }) a) hnd hdst
+      (by intro y hy; rw [balOf_setTok]; simp [hy])
+    rw [h2, h1, balOf_setTok]
+    simp [balOf, ht]
+    omega
+  · apply sum_congr
+    intro y _
+    rw [balOf_setTok, if_neg he]
+
+theorem tokBurn_sum {st st' : State} {token src : Addr} {amount : Int} {au : Bool}
+    (h : tokBurn st token src amount au = .ok st') (a : Addr) {hs : List Addr} (hnd : hs.Nodup) (hsrc : src ∈ hs) :
+    (hs.map (balOf st' a)).sum = (hs.map (balOf st a)).sum + (if a = token then - amount else 0) := by
+  obtain ⟨-, -, t, ht, -, rfl⟩ := tokBurn_inv h
+  by_cases he : a = token
+  · subst he
+    rw [sum_update (f := balOf st a) hnd hsrc (by intro y hy; rw [balOf_setTok]; simp [balOf, ht, hy]), balOf_setTok]
+    simp [balOf, ht]
+    omega
+  · rw [if_neg he, Int.add_zero]
+    apply sum_congr
+    intro y _
+    rw [balOf_setTok, if_neg he]
+
+theorem bal_add_sum {st : State} {token dst : Addr} {amount : Int} {t : Tok} (ht : st.tokens token = some t)
+    (a : Addr) {hs : List Addr} (hnd : hs.Nodup) (hdst : dst ∈ hs) :
+    (hs.map (balOf (setTok st token { t with bal := fun y => if y = dst then t.bal dst + amount else t.bal y }) a)).sum =
+      (hs.map (balOf st a)).sum + (if a = token then amount else 0) := by
+  by_cases he : a = token
+  · subst he
+    rw [sum_update (f := balOf st a) hnd hdst (by intro y hy; rw [balOf_setTok]; simp [balOf, ht, hy]), balOf_setTok]
+    simp [balOf, ht]
+    omega
+  · rw [if_neg he, Int.add_zero]
+    apply sum_congr
+    intro y _
+    rw [balOf_setTok, if_neg he]
+
+theorem tokMint_sum {st st' : State} {token dst : Addr} {amount : Int}
+    (h : tokMintByService st token dst amount = .ok st') (a : Addr) {hs : List Addr} (hnd : hs.Nodup) (hdst : dst ∈ hs) :
+    (hs.map (balOf st' a)).sum = (hs.map (balOf st a)).sum + (if a = token then amount else 0) := by
+  obtain ⟨-, t, ht, -, -, -, rfl⟩ := tokMint_inv h
+  exact bal_add_sum ht a hnd hdst
+
+theorem deployTok_sum {st : State} {m tid name symbol dec r}
+    (h : deployTokenContract S k st m tid name symbol dec = .ok r) (a : Addr) (hs : List Addr) :
+    r.2.1 = deployedAddress S k st.self tid ∧
+    (hs.map (balOf r.1 a)).sum = (hs.map (balOf st a)).sum := by
+  unfold deployTokenContract at h
+  dsimp only at h
+  split at h
+  · cases h
+  · rename_i h1
+    split at h
+    · cases h
+    · cases h
+      dsimp only
+      refine ⟨rfl, sum_congr ?_⟩
+      intro y _
+      rw [balOf_setTok]
+      split
+      · rename_i he
+        subst he
+        simp only [not_or] at h1
+        cases htk : st.tokens (deployedAddress S k st.self tid) with
+        | none => simp [balOf, htk]
+        | some t => rw [htk] at h1; exact absurd rfl h1.1
+      · rfl
+
+theorem payGas_sum {st : State} {sp spa dc msg gt ga st' evs}
+    (h : payGasAndCall H k st sp spa dc msg gt ga = .ok (st', evs)) (a : Addr) {hs : List Addr} (hnd : hs.Nodup)
+    (hsp : sp ∈ hs) (hgs : st.gasService ∈ hs) :
+    (hs.map (balOf st' a)).sum = (hs.map (balOf st a)).sum := by
+  obtain ⟨-, -, -, payload, -, -, htt⟩ := Props.C18.payGasAndCall_inv H k _ _ _ _ _ _ _ _ _ h
+  exact tokTransfer_sum htt a hnd hsp hgs
+
+theorem deployRemote_sum {st : State} {sp spa ds dc gt ga r}
+    (h : deployRemoteToken H k st sp spa ds dc gt ga = .ok r) (a : Addr) {hs : List Addr} (hnd : hs.Nodup)
+    (hsp : sp ∈ hs) (hgs : st.gasService ∈ hs) :
+    (hs.map (balOf r.1 a)).sum = (hs.map (balOf st a)).sum := by
+  obtain ⟨st', tid, evs⟩ := r
+  obtain ⟨-, addr, mgr, t, payload, -, -, -, -, -, -, -, -, htt⟩ :=
+    Props.C18.deployRemoteToken_exact H k _ _ _ _ _ _ _ _ _ _ h
+  exact tokTransfer_sum htt a hnd hsp hgs
+
+theorem deployIT_sum {st : State} {au ca sa n sy d su m r}
+    (h : deployInterchainToken H S k st au ca sa n sy d su m = .ok r) (a : Addr) {hs : List Addr} (hnd : hs.Nodup)
+    (hca : ca ∈ hs) :
+    (hs.map (balOf r.1 a)).sum = (hs.map (balOf st a)).sum +
+      (if deployedAddress S k st.self (interchainTokenId H k st.chainName ca sa) = a ∧ su > 0 then su else 0) := by
+  unfold deployInterchainToken at h
+  split at h
+  · cases h
+  · dsimp only at h
+    split at h
+    · cases h
+    · split at h
+      · cases h
+      · rename_i st1 addr ev hd
+        obtain ⟨haddr, h1⟩ := deployTok_sum S k hd a hs
+        dsimp only at haddr h1
+        split at h
+        · cases h
+        · rename_i st3 ha
+          cases h
+          dsimp only
+          show (hs.map (balOf st3 a)).sum = _
+          rw [← haddr]
+          split at ha
+          · rename_i hsu
+            split at ha
+            · cases ha
+            · rename_i st2 hm
+              have h2 := tokMint_sum hm a hnd hca
+              have h3 : (hs.map (balOf st3 a)).sum = (hs.map (balOf st2 a)).sum := by
+                split at ha
+                · split at ha
+                  · rename_i t htk
+                    cases ha
+                    apply sum_congr
+                    intro y _
+                    rw [balOf_setTok]
+                    split
+                    · rename_i he; subst he; simp [balOf, htk]
+                    · rfl
+                  · cases ha
+                · cases ha; rfl
+              rw [h3, h2, h1]
+              by_cases he : a = addr
+              · subst he; simp [hsu]
+              · have he' : ¬ addr = a := fun e => he e.symm
+                simp [he, he']
+          · rename_i hsu
+            cases ha
+            rw [h1]
+            simp [hsu]
+
+theorem interchainTransfer_sum {st : State} {au ca tid dc da am dt gt ga r}
+    (h : interchainTransfer H k st au ca tid dc da am dt gt ga = .ok r) (a : Addr) {hs : List Addr} (hnd : hs.Nodup)
+    (hca : ca ∈ hs) (hself : st.self ∈ hs) (hgs : st.gasService ∈ hs) :
+    (hs.map (balOf r.1 a)).sum = (hs.map (balOf st a)).sum +
+      (if st.registry tid = some (a, .native) then - am else 0) := by
+  obtain ⟨st', evs⟩ := r
+  obtain ⟨-, -, -, -, addr, mgr, st1, payload, hreg, ht, -, hg, -⟩ := interchainTransfer_inv H k h
+  dsimp only
+  cases mgr with
+  | native =>
+    dsimp only at ht
+    have hgs1 : st1.gasService = st.gasService := by
+      obtain ⟨-, -, t, -, -, rfl⟩ := tokBurn_inv ht; rfl
+    rw [tokTransfer_sum hg a hnd hca (by rw [hgs1]; exact hgs), tokBurn_sum ht a hnd hca, hreg]
+    by_cases he : a = addr
+    · subst he; simp
+    · have he' : ¬ addr = a := fun e => he e.symm
+      simp [he, he']
+  | lockUnlock =>
+    dsimp only at ht
+    have hgs1 : st1.gasService = st.gasService := by
+      obtain ⟨-, -, t, -, -, rfl⟩ := tokTransfer_inv ht; rfl
+    rw [tokTransfer_sum hg a hnd hca (by rw [hgs1]; exact hgs), tokTransfer_sum ht a hnd hca hself, hreg]
+    simp
+
+theorem execute_sum {st : State} {c' i sa p r}
+    (h : execute H S k st c' i sa p = .ok r) (a : Addr) {hs : List Addr} (hnd : hs.Nodup)
+    (hcov : ∀ x ∈ (match Abi.decodeHub p with
+                    | .ok (.receiveFromHub _ (.transfer t)) =>
+                      match addrFromXdr t.dest with
+                      | some r => [r, st.self]
+                      | none => []
+                    | _ => []), x ∈ hs) :
+    (hs.map (balOf r.1 a)).sum = (hs.map (balOf st a)).sum +
+      (match Abi.decodeHub p with
+       | .ok (.receiveFromHub _ (.transfer t)) => if st.registry t.tokenId = some (a, .native) then t.amount else 0
+       | _ => 0) := by
+  obtain ⟨st', evs⟩ := r
+  obtain ⟨gw', gwEvs, origin, inner, hdec, hm⟩ := execute_inv5 H S k h
+  rw [hdec] at hcov ⊢
+  dsimp only
+  cases inner with
+  | deploy d =>
+    dsimp only at hm ⊢
+    obtain ⟨mo, st1, addr, ev, hd, rfl⟩ := hm
+    obtain ⟨-, h1⟩ := deployTok_sum S k hd a hs
+    dsimp only at h1
+    show (hs.map (balOf st1 a)).sum = _
+    rw [h1, Int.add_zero]
+    exact sumBal_tokens rfl a hs
+  | transfer t =>
+    dsimp only at hm hcov ⊢
+    obtain ⟨recipient, addr, mgr, hdest, hreg, hg, -⟩ := hm
+    rw [hdest] at hcov
+    dsimp only at hcov
+    have hr : recipient ∈ hs := hcov _ (by simp)
+    have hself : st.self ∈ hs := hcov _ (by simp)
+    have h0 : (hs.map (balOf { st with gw := gw' } a)).sum = (hs.map (balOf st a)).sum := sumBal_tokens rfl a hs
+    rw [hreg]
+    cases mgr with
+    | native =>
+      dsimp only at hg
+      rw [tokMint_sum hg a hnd hr, h0]
+      by_cases he : a = addr
+      · subst he; simp
+      · have he' : ¬ addr = a := fun e => he e.symm
+        simp [he, he']
+    | lockUnlock =>
+      dsimp only at hg
+      rw [tokTransfer_sum hg a hnd hself hr, h0]
+      simp
+
+/-- the operations that touch no token ledger at all -/
+def OwnerOp : Op → Prop
+  | .setTrusted _ _ => True
+  | .removeTrusted _ _ => True
+  | .transferOwnership _ _ => True
+  | .registerCanonical _ => True
+  | _ => False
+
+theorem step_tokens_other (st : State) (op : Op) (h : OwnerOp op) : (step H S k st op).1.tokens = st.tokens := by
+  cases op with
+  | setTrusted au ch =>
+    simp only [step, wrapEv, setTrustedChain]
+    split
+    · rename_i hx
+      split at hx
+      · cases hx
+      · split at hx
+        · cases hx
+        · cases hx; rfl
+    · rfl
+  | removeTrusted au ch =>
+    simp only [step, wrapEv, removeTrustedChain]
+    split
+    · rename_i hx
+      split at hx
+      · cases hx
+      · split at hx
+        · cases hx
+        · cases hx; rfl
+    · rfl
+  | transferOwnership au n =>
+    simp only [step, wrapEv, Its.transferOwnership]
+    split
+    · rename_i hx
+      split at hx
+      · cases hx
+      · cases hx; rfl
+    · rfl
+  | registerCanonical t =>
+    simp only [step, wrapId, registerCanonicalToken]
+    split
+    · rename_i hx
+      split at hx
+      · cases hx
+      · cases hx; rfl
+    · rfl
+  | _ => exact absurd h id
+
 end Cgp.Proofs.C05
